@@ -14,7 +14,7 @@ MANIFEST = dict(
              "memstr/memrstr/memtok/memcpy, mpt_message_append, mpt_array_message, mpt_message_get) on the contiguous byte string "
              "alone and, as a second tier, on the fragment cursor the way the C code walks it.  TLC checks for every string over "
              "three 4-symbol alphabets (NUL/space/quote/letter; quotes/backslash; comment/newline) up to length 4 (thorough 5) x "
-             "every cut into <= 3 (4) fragments including empty ones x every call with every argument of the bounded sets that the "
+             "every cut into <= 3 fragments (thorough also 4 at length 4) including empty ones x every call with every argument of the bounded sets that the "
              "fragment design answers exactly what the contiguous meaning says.  Every such case (string, cut, call, expected "
              "answer) is exported by TLC and replayed into the real functions on separately allocated fragments (answer class, "
              "returned position/length, copied bytes, remaining message compared); the one-fragment cut is the contiguous run of "
@@ -33,7 +33,7 @@ CFG = {
         gen=[("Gen_Message.cfg", 2), ("Gen_Message_e.cfg", 1), ("Gen_Message_c.cfg", 1)],
         nmsg=150, maxlen=300, pool=6),
     "thorough": dict(
-        mc=[("MC_Message_t.cfg", 8), ("MC_Message_et.cfg", 4), ("MC_Message_ct.cfg", 4)],
+        mc=[("MC_Message_t.cfg", 8), ("MC_Message_f.cfg", 4), ("MC_Message_et.cfg", 4), ("MC_Message_ct.cfg", 4)],
         gen=[("Gen_Message_t.cfg", 8), ("Gen_Message_et.cfg", 3), ("Gen_Message_ct.cfg", 3)],
         nmsg=1500, maxlen=300, pool=8),
 }
@@ -103,6 +103,17 @@ def gen_job(a):
     mms = vlib.compare(behs, recs, match)
     out = []
     seen = {}
+    kept = []
+    for mm in mms:
+        # a fault or time-out is re-run alone once before it is reported
+        if mm["why"] in ("Crash", "Hang", "no record (driver stopped)"):
+            recs1, _ = vlib.run_driver(exe, vlib.to_script([behs[mm["b"]]]), env=FAST_ASAN)
+            again = vlib.compare([behs[mm["b"]]], recs1, match)
+            if not again:
+                continue
+            mm = dict(again[0], b=mm["b"])
+        kept.append(mm)
+    mms = kept
     for mm in mms:
         beh = behs[mm["b"]]
         sig = signature(beh, mm["i"], mm["why"])
